@@ -1545,4 +1545,68 @@ theorem BF_of_ok (cfg : Cfg) (ctx : Ctx) (h : ctxOK ctx = true) (hf : ∀ f n r,
     · exact hn hm
     · exact hs hm
 
+/-! ### `parse` recovers a grammar template from its tokens -/
+
+theorem parseGo_thn_close (ws n : Str) (acc a r : List Tok) (h : ∀ x ∈ a, x.inline = true) :
+    parseGo (.thn ws n acc) (a ++ .ifC :: r) = (parseGo .out r).map (Seg.ifB ws n (acc ++ a) none :: ·) := by
+  induction a generalizing acc with
+  | nil => simp [parseGo]
+  | cons x a ih =>
+    have hx := h x (by simp)
+    have := ih (acc ++ [x]) (fun y hy => h y (by simp [hy]))
+    cases x <;> simp_all [parseGo, Tok.inline]
+
+theorem parseGo_els_close (ws n : Str) (t acc e r : List Tok) (h : ∀ x ∈ e, x.inline = true) :
+    parseGo (.els ws n t acc) (e ++ .ifC :: r) = (parseGo .out r).map (Seg.ifB ws n t (some (acc ++ e)) :: ·) := by
+  induction e generalizing acc with
+  | nil => simp [parseGo]
+  | cons x e ih =>
+    have hx := h x (by simp)
+    have := ih (acc ++ [x]) (fun y hy => h y (by simp [hy]))
+    cases x <;> simp_all [parseGo, Tok.inline]
+
+theorem parseGo_thn_else (ws n : Str) (acc a e r : List Tok) (ha : ∀ x ∈ a, x.inline = true)
+    (he : ∀ x ∈ e, x.inline = true) :
+    parseGo (.thn ws n acc) (a ++ .els :: (e ++ .ifC :: r))
+      = (parseGo .out r).map (Seg.ifB ws n (acc ++ a) (some e) :: ·) := by
+  induction a generalizing acc with
+  | nil => simpa [parseGo] using parseGo_els_close ws n acc [] e r he
+  | cons x a ih =>
+    have hx := ha x (by simp)
+    have := ih (acc ++ [x]) (fun y hy => ha y (by simp [hy]))
+    cases x <;> simp_all [parseGo, Tok.inline]
+
+theorem parseGo_body_close (ws n : Str) (acc b r : List Tok) (h : ∀ x ∈ b, x.inline = true) :
+    parseGo (.body ws n acc) (b ++ .eachC :: r) = (parseGo .out r).map (Seg.each ws n (acc ++ b) :: ·) := by
+  induction b generalizing acc with
+  | nil => simp [parseGo]
+  | cons x b ih =>
+    have hx := h x (by simp)
+    have := ih (acc ++ [x]) (fun y hy => h y (by simp [hy]))
+    cases x <;> simp_all [parseGo, Tok.inline]
+
+theorem parseGo_seg (s : Seg) (hs : s.wf = true) (r : List Tok) :
+    parseGo .out (s.flatten ++ r) = (parseGo .out r).map (s :: ·) := by
+  cases s with
+  | tok t =>
+    simp only [Seg.wf] at hs
+    cases t <;> simp_all [Seg.flatten, parseGo, Tok.inline]
+  | ifB ws n a e =>
+    simp only [Seg.wf, Bool.and_eq_true, List.all_eq_true] at hs
+    cases e with
+    | none => simpa [Seg.flatten, parseGo] using parseGo_thn_close ws n [] a r hs.1
+    | some e => simpa [Seg.flatten, parseGo] using parseGo_thn_else ws n [] a e r hs.1 (by simpa using hs.2)
+  | each ws n b =>
+    simp only [Seg.wf, List.all_eq_true] at hs
+    simpa [Seg.flatten, parseGo] using parseGo_body_close ws n [] b r hs
+
+theorem parse_flatten (t : Tmpl) (hwf : ∀ s ∈ t, s.wf = true) : parse (flatten t) = some t := by
+  unfold parse flatten
+  induction t with
+  | nil => rfl
+  | cons s t ih =>
+    simp only [List.flatMap_cons]
+    rw [parseGo_seg s (hwf s (by simp)), ih (fun x hx => hwf x (by simp [hx]))]
+    rfl
+
 end Operon.Tmpl
